@@ -91,6 +91,10 @@ def gen_cases(rng, tier):
               "drop;adv:32001;select", "drop;adv:31999;select;adv:40000;drop;adv:32001",
               "drop,select;adv:32001", "drop,select;adv:40000;frame", "drop,select;adv:31999;adv:2;select", "drop,select,drop;adv:32001"):
         cases.append(["e%d" % k, "c15", "out", g]); k += 1
+    # a connection accepted long after the listener started waiting (or after an earlier one): its 32 s run from the accept
+    for late in (20000, 33000, 70000):
+        for g in ("adv:31999;adv:2", "adv:15000;frame;adv:31999;adv:2", "adv:100;frame;adv:31999;adv:2;adv:40000", "adv:31000;frame,frame;adv:31999;adv:2"):
+            cases.append(["e%d" % k, "c15", "in@%d" % late, g]); k += 1
     # an outgoing connection whose stream reports another peer address than the one that was dialled (connect through the unspecified
     # address, a tunnelling factory): messages are delivered, it is closed 32 s after the last use like any other
     for g in ("frame;drop;adv:31999;adv:2", "drop;frame;adv:31999;adv:2;adv:31999", "drop;adv:32001", "clone,frame;drop,drop;adv:10;frame;adv:31999;adv:2", "frame,close", "drop;adv:100;close"):
@@ -130,7 +134,7 @@ def model_case(case, impl):
             else:
                 evs.append(e)
         groups.append(",".join(evs) if evs else "adv:0")
-    return case[:2] + ["out" if case[2] == "outalias" else case[2]] + [";".join(groups)] + case[4:]
+    return case[:2] + ["out" if case[2] == "outalias" else ("in" if case[2].startswith("in@") else case[2])] + [";".join(groups)] + case[4:]
 
 
 def _sim_track(case):
@@ -147,11 +151,11 @@ def oracle(case, impl):
     obs = impl.split(";")
     if len(obs) != len(groups):
         return ["malformed observation"]
-    refs = 0 if case[2] == "in" else 1
+    refs = 0 if case[2].startswith("in") else 1
     frames_sent = 0
     closed = False
     gone = False
-    idle_since = 0 if case[2] == "in" else None
+    idle_since = 0 if case[2].startswith("in") else None
     now = 0
     prev_d = 0
     gate = None         # instant (ms, may be fractional) at which what the peer wrote becomes readable
